@@ -1,5 +1,6 @@
 import QtVerif.Proofs.SlaveExposed
 import QtVerif.Proofs.SlaveAllSteps
+import QtVerif.Proofs.SlaveNames
 /-!
 C12 — The master's mirror of a slave follows the slave.
 
@@ -887,5 +888,63 @@ example :
     (findPort r.1.ports 1).map (fun p => (p.cached, p.provValue, p.lastRead)) = some (some 9, true, some 7) ∧
     (findS r.2.ports 1).map (fun q => (q.attrs, q.value)) = some ([(0, 1), (5, 20)], some 8) :=
   ⟨by decide, by decide, by decide⟩
+
+/-! ### 16. The attribute SET follows the slave; the `device_` mapping on real names, at any nesting depth
+
+A port-update (event, polled difference, full fetch: all go through `_handle_port_update`) REPLACES the cached
+attributes by the reported ones: an attribute the slave's port no longer has disappears from the mirror (unless it is
+pending provisioning, repaired code). The name mapping of `get_attr` / `set_attr` strips exactly ONE `device_` from
+a name of the expression/history family, so a hub slave's `device_expression` is the master's
+`device_device_expression` and its `expression` the master's `device_expression` (`QtVerif/Model/SlaveNames.lean`,
+character-level, run by the driver against the real `SlavePort`). -/
+
+/-- The cache after a port-update is the reported attribute set (overlaid with the pending attributes, repaired code):
+nothing else of the old cache survives. -/
+theorem port_update_replaces_cache (fix : Fix) (p : MPort) (msg : PortMsg) :
+    (applyPortUpdate fix p msg).1.attrs = if fix.keepPending then msg.attrs.update p.pendAttrs else msg.attrs :=
+  applyPortUpdate_attrs fix p msg
+
+/-- **An attribute absent from the update is absent from the mirror unless pending.** -/
+theorem port_update_drops_absent_attribute (fix : Fix) (p : MPort) (msg : PortMsg) (n : Nat)
+    (hm : msg.attrs.has n = false) (hp : p.pendAttrs.has n = false) :
+    (applyPortUpdate fix p msg).1.attrs.has n = false :=
+  applyPortUpdate_drops fix p msg n hm hp
+
+-- the port had max (= 7) and min (= 6); the update reports min only: max is gone, min and the rest follow the update
+example : ((applyPortUpdate Fix.repaired ⟨1, [(0, 1), (6, 0), (7, 120)], [], none, [], false, none, true⟩
+      ⟨1, [(0, 1), (6, 3)], none⟩).1.attrs = [(0, 1), (6, 3)]) ∧
+    Attrs.has [(0, 1), (6, 3)] 7 = false ∧ (MPort.pendAttrs ⟨1, [(0, 1), (6, 0), (7, 120)], [], none, [], false, none, true⟩).has 7 = false := by
+  decide
+
+open Names in
+/-- **Exactly one `device_` is stripped**, whatever the nesting depth: the master's `device_` ++ k is the slave's k for
+every k of the family (`expression`, `device_expression`, `device_device_history_interval`, …). `hown`: no master-owned
+name starts with `device_` (true of `MASTER_ATTRS`). -/
+theorem device_prefix_stripped_once (owned : List Name) (hown : ∀ o ∈ owned, stripDev o = none) (k : Name)
+    (hf : family k = true) : Names.slaveName owned (devPrefix ++ k) = some k :=
+  slaveName_dev owned hown k hf
+
+open Names in
+/-- `set_attr`'s mapping undoes the presentation on real names, nested prefixes included. -/
+theorem device_renaming_invertible_names (owned : List Name) (hown : ∀ o ∈ owned, stripDev o = none) (k n : Name)
+    (h : Names.presentName owned k = some n) : Names.slaveName owned n = some k :=
+  slaveName_presentName owned hown k n h
+
+open Names in
+/-- No two slave attributes are shown under one name. -/
+theorem device_renaming_injective_names (owned : List Name) (hown : ∀ o ∈ owned, stripDev o = none) (a b n : Name)
+    (ha : Names.presentName owned a = some n) (hb : Names.presentName owned b = some n) : a = b :=
+  presentName_inj owned a b n ha hb hown
+
+open Names in
+example : let owned := ["id", "tag", "expression", "history_interval", "history_retention", "online", "last_sync",
+      "expires"].map String.toList
+    (∀ o ∈ owned, stripDev o = none) ∧ family "device_expression".toList = true ∧
+    Names.slaveName owned "device_device_expression".toList = some "device_expression".toList ∧
+    Names.slaveName owned "device_expression".toList = some "expression".toList ∧
+    Names.slaveName owned "expression".toList = none ∧ Names.slaveName owned "device_unit".toList = some "device_unit".toList ∧
+    Names.presentName owned "device_history_interval".toList = some "device_device_history_interval".toList ∧
+    Names.presentName owned "tag".toList = none ∧ Names.presentName owned "unit".toList = some "unit".toList := by
+  decide
 
 end QtVerif.Slave.C12
